@@ -268,7 +268,68 @@ func listOf(x any) []gen.S {
 	return out
 }
 
+// c13EmptyValues: defaulted query parameters sent with an EMPTY value. Whatever the first validation makes of them, the
+// forwarded request validates again and a second validation changes nothing further.
+func c13EmptyValues(c *core.Ctx) {
+	d, err := loadDoc(c13Doc(nil, c13PlainSchema(), false))
+	if err != nil {
+		return
+	}
+	router, err := newGorilla(d)
+	if err != nil {
+		return
+	}
+	for _, q := range []string{"qs=", "qi=", "qs=&qi=", "qa=", "qs=&zz=1", "qs", "qs=&qs="} {
+		for _, multi := range []bool{false, true} {
+			desc := fmt.Sprintf("defaulted query parameter sent empty: ?%s MultiError=%v", q, multi)
+			c.Begin(desc)
+			req, _ := http.NewRequest("POST", "http://h.t/d?"+q, bytes.NewReader([]byte(`{"a":"x"}`)))
+			req.Header.Set("Content-Type", "application/json")
+			req.Header.Set("X-N", "n")
+			o := openapi3filter.Options{MultiError: multi}
+			var snaps []string
+			var verrs []error
+			crashed := false
+			for pass := 0; pass < 3 && !crashed; pass++ {
+				in, err := reqInput(router, req, &o)
+				if err != nil {
+					break
+				}
+				var verr error
+				c.Eval()
+				if pi := core.Guard(func() { verr = openapi3filter.ValidateRequest(bgCtx, in) }); pi != nil {
+					c.Violate(core.PanicFeatures(pi), c13Witness{Doc: "plain", Request: "POST /d?" + q}, pi.Stack)
+					crashed = true
+					break
+				}
+				verrs = append(verrs, verr)
+				snaps = append(snaps, req.URL.RawQuery+" | X-D="+strings.Join(req.Header.Values("X-D"), ",")+" | Cookie="+req.Header.Get("Cookie"))
+			}
+			if crashed || len(snaps) < 3 {
+				continue
+			}
+			c.Distinct(desc)
+			c.Cover("body_check", "empty-valued defaulted query parameters")
+			if verrs[0] != nil {
+				continue // refused at once: nothing is forwarded
+			}
+			if verrs[1] != nil || verrs[2] != nil {
+				c.Violate(map[string]string{"kind": "forwarded_request_fails_revalidation", "part": "empty-valued query parameter", "options": fmt.Sprint(multi), "auth": "accept", "accepted": "true"},
+					c13Witness{Doc: "plain", Request: "POST /d?" + q, Got: fmt.Sprint(verrs[1], " / ", verrs[2]), Want: "nil"}, desc+"\nafter the first validation: "+snaps[0])
+				continue
+			}
+			if snaps[1] != snaps[0] || snaps[2] != snaps[1] {
+				c.Violate(map[string]string{"kind": "second_validation_changes_request", "part": "empty-valued query parameter", "options": fmt.Sprint(multi), "auth": "accept", "accepted": "true"},
+					c13Witness{Doc: "plain", Request: "POST /d?" + q, Got: snaps[1] + "  then  " + snaps[2], Want: snaps[0]}, fmt.Sprintf("%s\nafter 1st: %s\nafter 2nd: %s\nafter 3rd: %s", desc, snaps[0], snaps[1], snaps[2]))
+			}
+		}
+	}
+}
+
 func runC13(c *core.Ctx) {
+	if c.Shard == 0 {
+		c13EmptyValues(c)
+	}
 	idx := 0
 	for _, ex := range []*bool{nil, bp(true), bp(false)} {
 		for si, schema := range []gen.S{c13BodySchema(), c13PlainSchema()} {
